@@ -14,6 +14,7 @@ pub const FLOORS: &[&str] = &[
     "ext_source:off_rejected_naming_feature", "ext_source:on_accepted", "ext_in_label_position",
     "ext_mixed_case", "plain_source:same_image", "raw:0xD_reached_off_exit1", "raw:0xD_reached_on_executes",
     "raw:no_0xD_same_behaviour", "mnemonic:push", "mnemonic:pop", "mnemonic:call", "mnemonic:rets",
+    "exec:push", "exec:push_r7", "exec:pop", "exec:pop_r7", "exec:call_rets", "exec:extension_image_runs_like_the_reference",
 ];
 
 fn on_thread<R: Send>(f: impl FnOnce() -> R + Send) -> Option<R> {
@@ -26,13 +27,76 @@ pub fn run(cfg: &Cfg, col: &mut Collector) {
     let n_src = cfg.n(2000, 80_000, 6);
     let n_raw = cfg.n(1500, 40_000, 4);
     let seed = cfg.seed;
-    crate::util::run_cases_plain(n_src + n_raw, cfg.only_case, cfg.threads, col, move |i| {
+    let n_exec = cfg.n(600, 30_000, 3);
+    crate::util::run_cases_plain(n_src + n_raw + n_exec, cfg.only_case, cfg.threads, col, move |i| {
         if i < n_src {
             source_case(seed, i)
-        } else {
+        } else if i < n_src + n_raw {
             raw_case(seed, i)
+        } else {
+            exec_case(seed, i)
         }
     });
+}
+
+/// With the flag on the four instructions execute as documented: images of PUSH/POP with every register
+/// (R7, the stack pointer itself, included), CALL and RETS between ordinary instructions, run with the flag
+/// on and compared - registers, PC, condition codes, memory, the sequence of fetches - with the reference
+/// machine (which knows the admissible readings of `PUSH R7`/`POP R7`).
+fn exec_case(seed: u64, i: u64) -> CaseOut {
+    let mut out = CaseOut::new();
+    let mut rng = Rng::for_case(seed, "C18x", i);
+    let orig = *rng.pick(&[0x3000u16, 0x0200, 0x8000, 0xFD00, 0x3000]);
+    let mut raw = vec![orig];
+    for r in 0..7u16 {
+        raw.push(0x1020 | r << 9 | r << 6 | (1 + r)); // ADD Rr,Rr,#(1+r): every register a value of its own
+    }
+    let mut depth = 0;
+    for _ in 0..4 + rng.below(14) {
+        let r = rng.below(8) as u16;
+        match rng.below(7) {
+            0 | 1 => {
+                raw.push(0xD400 | r << 6);
+                depth += 1;
+                out.class(if r == 7 { "exec:push_r7" } else { "exec:push" });
+            }
+            2 | 3 if depth > 0 => {
+                raw.push(0xD000 | r << 6);
+                depth -= 1;
+                out.class(if r == 7 { "exec:pop_r7" } else { "exec:pop" });
+            }
+            4 => {
+                // CALL +2 ; (back here) ADD R1,R1,#1 ; BRnzp +2 ; routine: ADD R2,R2,#1 ; RETS
+                raw.extend([0xDC02, 0x1261, 0x0E02, 0x14A1, 0xD800]);
+                out.class("exec:call_rets");
+            }
+            _ => raw.push(0x1020 | (r % 7) << 9 | (r % 7) << 6 | 0x1F), // ADD Rr,Rr,#-1
+        }
+    }
+    raw.push(0xF025);
+    let r2 = raw.clone();
+    let real = on_thread(move || {
+        init_features(true);
+        lace::set_minimal(true);
+        let mut env = load_raw(&r2).ok()?;
+        Some(crate::c03::observe(&mut env, &[], 3000))
+    });
+    let Some(Some(real)) = real else {
+        out.inconclusive = Some("image could not be loaded".into());
+        return out;
+    };
+    out.nontrivial = Some(hash_words(&raw));
+    match crate::c03::compare_run(&raw, true, &[], 3000, &real) {
+        Ok((crate::refvm::Stop::Discard(_), _)) => out.class("exec:discarded"),
+        Ok(_) => out.class("exec:extension_image_runs_like_the_reference"),
+        Err((aspect, text)) => out.violate(
+            format!("C18/on/extension-executes-differently/{}", aspect),
+            i,
+            format!("with the flag on, an image of PUSH/POP/CALL/RETS words runs differently from the reference machine: {}", text),
+            J::obj(vec![("image", J::words(&raw[..raw.len().min(48)]))]),
+        ),
+    }
+    out
 }
 
 fn names_feature(d: &crate::exec::Diag) -> bool {
